@@ -175,6 +175,10 @@ theorem c18_pbddeform_unfixed_cycle_witness (fuel : Nat) :
     | zero => rfl
     | succ n ih => unfold C18Skel.walkUnfixed; exact ih
   exact hw fuel
+/-- the hypotheses of `c18_pbd_walk_terminates` on that header -/
+example : ¬ faults (C18Skel.walk pbdSelfParent 999 (pbdSelfParent.links.size + 1) ⟨101, 0, ⟨0, 0, 0⟩⟩ ⟨0, 0, 0⟩ 0) :=
+  c18_pbd_walk_terminates pbdSelfParent
+    (by intro it hit; simp [pbdSelfParent] at hit; subst hit; exact ⟨rfl, rfl⟩) 999 _ _ ⟨rfl, rfl⟩
 /-- … the repaired walk answers `None`, … -/
 example : (C18Skel.getDeformMatrices pbdSelfParent 101 999).cls = "none" := by decide
 /-- … and that header is what the 28-byte witness file parses to -/
